@@ -11,6 +11,10 @@ const verifC10HasShim = false
 
 func verifC10Expire(c *TTLCache, key string) { c.Remove(key) }
 
+// no access to the entry's timer: the caller falls back to verifC10Expire; the production timer
+// function is still driven by TestVerifC10Timer (real short ttl, exported API only).
+func verifC10FireTimer(c *TTLCache, key string) (gone func() bool, armed bool) { return nil, false }
+
 func verifC10TTLLen(c *TTLCache) (int, bool) { return 0, false }
 
 func verifC10TTLPeek(c *TTLCache, key string) (v any, ok bool, can bool) { return nil, false, false }
